@@ -48,7 +48,9 @@ def _moved_free_fns(fns_by_crate):
                 continue
             free[v.get("path") or k] = v
         inv_free = {x.split("|||", 1)[1] for x in inv if x.startswith(c + "|||")}
-        missing = [p for p in inv_free if p not in free and "::" in p]
+        # (the inventory's "no impl" entries include provided trait methods: only what no function of this tree is called counts as gone)
+        anyfn = {v.get("path") or k for k, v in fns.items()}
+        missing = [p for p in inv_free if p not in free and p not in anyfn and "::" in p]
         extra = [p for p in free if p not in inv_free]
         for m in missing:
             name = m.rsplit("::", 1)[1]
